@@ -59,6 +59,7 @@ func main() {
 		r := mon.Start(c.id, tier, c.level)
 		r.Put("hooks_available", hooksAvailable)
 		c.run(r)
+		raceLog(r, c.id == "C09")
 		r.Finish()
 	case "--replay":
 		b, err := os.ReadFile(os.Args[3])
